@@ -246,6 +246,24 @@ func (w *world) apply(o wop) error {
 				w.nodes = append(w.nodes, c.Child)
 			}
 		}
+	case "dagdiamond":
+		// two committed sibling branches off the (committed) root, then their merge: a merge node on master
+		for _, p := range []wop{{Kind: "commit", Node: 0}, {Kind: "branch", Node: 0}, {Kind: "kvput", Node: -1, A: o.A, B: 1}, {Kind: "commit", Node: -1},
+			{Kind: "branch", Node: 0}, {Kind: "kvput", Node: -1, A: o.A + 1, B: 2}, {Kind: "commit", Node: -1}} {
+			if err = w.apply(p); err != nil {
+				return err
+			}
+		}
+		n := len(w.nodes)
+		b, _ := json.Marshal(map[string]interface{}{"mergeType": "conflict-free", "parents": []string{w.nodes[n-2], w.nodes[n-1]}, "note": "diamond"})
+		var r drive.Resp
+		r, err = w.post("repo/"+w.root+"/merge", b)
+		if err == nil && r.OK() {
+			var c struct{ Child string }
+			if json.Unmarshal(r.Body, &c) == nil && c.Child != "" {
+				w.nodes = append(w.nodes, c.Child)
+			}
+		}
 	case "lmingest":
 		mut := ""
 		if o.B%2 == 1 {
@@ -596,7 +614,7 @@ func isHex(s string) bool {
 
 func genC03(t *rapid.T) c03Case {
 	var c c03Case
-	kinds := []string{"kvput", "kvput", "kvdel", "commit", "note", "log", "newversion", "newversion", "branch", "dagmerge",
+	kinds := []string{"kvput", "kvput", "kvdel", "commit", "note", "log", "newversion", "newversion", "branch", "dagmerge", "dagdiamond",
 		"lmingest", "lmmerge", "lmmerge", "lmcleave", "lmcleave", "lmsplitsv", "lmsplitsv", "lmrenumber", "lmundo",
 		"annpost", "annpost", "anndel", "annmove", "njpost", "njpost", "njpost", "njdel", "roipost", "newinst", "delinst"}
 	// start with content so restarts have something to rebuild
